@@ -60,20 +60,20 @@ impl Gen {
     pub fn draw_cfg(rng: &mut Rng, family: &str) -> GenCfg {
         let n_peers = match family {
             "death3" | "three" => 3 + rng.below(2) as usize,
-            "timesync" | "lossack" | "death" | "disc" | "specack" | "specdeath" | "idle" | "glitch" | "forge" | "evq" => 2,
+            "timesync" | "lossack" | "death" | "zombie" | "disc" | "specack" | "specdeath" | "idle" | "glitch" | "forge" | "evq" => 2,
             _ => *rng.pick(&[2usize, 2, 2, 3, 3, 4]),
         };
         let players_per_peer: Vec<usize> = (0..n_peers).map(|_| if rng.chance(1, 4) { 2 } else { 1 }).collect();
         let mp = match family {
             "lockstep" => 0,
             "death3" => 1 + rng.below(10) as usize,
-            "death" | "disc" if rng.chance(1, 4) => 0,
+            "death" | "zombie" | "disc" if rng.chance(1, 4) => 0,
             _ => *rng.pick(&[0usize, 1, 2, 3, 4, 6, 8, 8, 8, 10, 12]),
         };
         let n_spec = match family {
             "spec" => 1 + rng.below(2) as usize,
             "specack" | "specdeath" => 1,
-            "death" | "disc" => if rng.chance(1, 2) { 1 } else { 0 },
+            "death" | "zombie" | "disc" => if rng.chance(1, 2) { 1 } else { 0 },
             "mix" | "events" | "delay" => if rng.chance(1, 4) { 1 } else { 0 },
             _ => 0,
         };
@@ -104,7 +104,7 @@ impl Gen {
         };
         // only the families about faults and drops play with short timeouts; everywhere else an
         // accidental timeout would just move the scenario into another property's space
-        if !matches!(family, "loss" | "lossack" | "death" | "death3" | "disc" | "three") {
+        if !matches!(family, "loss" | "lossack" | "death" | "zombie" | "death3" | "disc" | "three") {
             cfg.dt = *rng.pick(&[2000u64, 3000]);
         }
         if cfg.dn >= cfg.dt {
@@ -303,7 +303,7 @@ impl Gen {
             let idx = self.peers.len() - 1;
             self.peers[idx].die_at = Some(300_000 + self.rng.below(1_000_000));
         }
-        if cfg.family == "death" || cfg.family == "death3" {
+        if cfg.family == "death" || cfg.family == "death3" || cfg.family == "zombie" {
             let victim = self.rng.below(cfg.n_peers as u64) as usize;
             self.peers[victim].die_at = Some(400_000 + self.rng.below(2_500_000));
         }
@@ -421,6 +421,20 @@ impl Gen {
                         _ => format!("size {} {}", 2 * nh + 1, 1 + self.rng.below(2)),
                     };
                     self.emit(format!("forge {src} {dst} {k} {m}"));
+                }
+            }
+            // a stranger (a restarted peer, another session) keeps sending from a dead peer's
+            // address with a magic number that is not the dead peer's
+            "zombie" if self.rng.chance(1, 2) => {
+                let dead: Vec<usize> = self.peers.iter().filter(|p| !p.alive && !p.is_spec).map(|p| p.sid).collect();
+                for v in dead {
+                    let magic = 1 + self.rng.below(2);
+                    let body = match self.rng.below(3) {
+                        0 => "KeepAlive".to_owned(),
+                        1 => format!("SyncRequest {}", 7 + self.rng.below(1000)),
+                        _ => "QualityReply 5".to_owned(),
+                    };
+                    self.emit(format!("inject {sid} {v} {magic} {body}"));
                 }
             }
             "misuse" if self.rng.chance(1, 10) => {
